@@ -213,6 +213,10 @@ def gen_recipe(rng, n_files=None, defects=(), spicy=False, global_mode=None, git
         f = {"path": path, "kind": kind, "style": rng.choice(styles), "multi": rng.random() < 0.3,
              "sources": [{"carrier": carrier, "copyrights": cops, "exprs": exprs,
                           "toml_dir": ""}]}
+        if carrier in ("header", "dotlicense") and cops and rng.random() < 0.15:
+            # the same holder once more, in another notice style and with another year
+            holder = cops[0].split(" ", 1)[1]
+            f["sources"][0]["raw_cops"] = [rng.choice(["Copyright (C) {} {}", "Copyright {} {}", "© {} {}", "Copyright © {} {}"]).format(rng.randint(1980, 1989), holder)]
         hits = _colliding_ids(f["style"]) if carrier == "header" else []
         if hits and rng.random() < 0.6:
             # a comment marker made of letters (dnl, REM, c) and an identifier that ends in one of them
@@ -255,6 +259,7 @@ def gen_recipe(rng, n_files=None, defects=(), spicy=False, global_mode=None, git
         if d == "no-copyright":
             for s in v["sources"]:
                 s["copyrights"] = []
+                s.pop("raw_cops", None)
             v["defect"] = d
         elif d == "no-licence":
             for s in v["sources"]:
@@ -263,6 +268,7 @@ def gen_recipe(rng, n_files=None, defects=(), spicy=False, global_mode=None, git
         elif d == "no-info":
             for s in v["sources"]:
                 s["copyrights"] = []
+                s.pop("raw_cops", None)
                 s["exprs"] = []
             v["defect"] = d
         elif d == "bad-id-in-file":
@@ -348,7 +354,7 @@ DEFECTS = ["no-copyright", "no-licence", "no-info", "missing-text", "unused-text
 
 
 def _tag_lines(src):
-    lines = [f"SPDX-FileCopyrightText: {c}" for c in src["copyrights"]]
+    lines = [f"SPDX-FileCopyrightText: {c}" for c in src["copyrights"]] + list(src.get("raw_cops", []))
     if src["copyrights"] and src["exprs"]:
         lines.append("")
     lines += [f"SPDX-License-Identifier: {expr_text(e)}" for e in src["exprs"]]
@@ -483,6 +489,7 @@ def file_info(f):
                 cops.append("SPDX-FileCopyrightText: " + c)
             else:
                 cops.append(c)
+        cops += list(s.get("raw_cops", []))
         for e in s["exprs"]:
             exprs.append(expr_text(e))
             ids += expr_ids(e)
